@@ -194,6 +194,13 @@ type model struct {
 	creates       int
 	deletes       int
 	cleanupActive int
+	earlyDel      map[string][]*earlyDelete // deletes of an id whose create has not returned yet
+}
+
+type earlyDelete struct {
+	client int64
+	start  int
+	done   int // seq at which it returned nil
 }
 
 func newModel(w *world) *model { return &model{w: w, recs: map[string]*mrec{}} }
@@ -229,7 +236,20 @@ func (m *model) onCreate(name string, client int64, mp *repos.HTTPDomainMapping,
 			return
 		}
 	}
-	m.recs[mp.ID] = &mrec{id: mp.ID, name: name, owner: client, createdSeq: m.seq}
+	rec := &mrec{id: mp.ID, name: name, owner: client, createdSeq: m.seq}
+	// a delete by the same client that started while this create was still in flight (the id
+	// was visible through a lookup) counts as the owner's delete
+	for _, e := range m.earlyDel[mp.ID] {
+		if e.client == client {
+			if rec.ownerDelStart == 0 {
+				rec.ownerDelStart = e.start
+			}
+			if e.done > 0 && rec.ownerDelDone == 0 {
+				rec.ownerDelDone = e.done
+			}
+		}
+	}
+	m.recs[mp.ID] = rec
 }
 
 func (m *model) sorted() []*mrec {
@@ -246,8 +266,15 @@ func (m *model) onDeleteStart(id string, client int64) int {
 	defer m.mu.Unlock()
 	m.seq++
 	m.deletes++
-	if r := m.recs[id]; r != nil && r.owner == client && r.ownerDelStart == 0 {
-		r.ownerDelStart = m.seq
+	if r := m.recs[id]; r != nil {
+		if r.owner == client && r.ownerDelStart == 0 {
+			r.ownerDelStart = m.seq
+		}
+	} else {
+		if m.earlyDel == nil {
+			m.earlyDel = map[string][]*earlyDelete{}
+		}
+		m.earlyDel[id] = append(m.earlyDel[id], &earlyDelete{client: client, start: m.seq})
 	}
 	return m.seq
 }
@@ -258,9 +285,17 @@ func (m *model) onDeleteEnd(id string, client int64, start int, err error) {
 	m.seq++
 	r := m.recs[id]
 	if r == nil {
+		for _, e := range m.earlyDel[id] {
+			if e.client == client && e.start == start && err == nil {
+				e.done = m.seq
+			}
+		}
 		return
 	}
 	if r.owner == client {
+		if r.ownerDelStart == 0 {
+			r.ownerDelStart = start
+		}
 		if err == nil && r.ownerDelDone == 0 {
 			r.ownerDelDone = m.seq
 		}
@@ -846,7 +881,8 @@ var dfsProgs = []dfsProg{
 	{name: "lookup;lookup||delete(owner);create(B)", init: []int{0, -1}, tasks: [][]Op{{lk(0), lk(0)}, {del("init0", 0), cr(0, 1)}}},
 	{name: "update(inactive)||delete(owner);create(B)", init: []int{0, -1}, tasks: [][]Op{{upd("init0", "inactive")}, {del("init0", 0), cr(0, 1)}}},
 	{name: "update(expired);cleanup||delete(owner);create(B)", init: []int{0, -1}, tasks: [][]Op{{upd("init0", "expired"), {Do: "cleanup"}}, {del("init0", 0), cr(0, 1)}}, thorough: true},
-	{name: "lookup;delete(found,non-owner)||delete(owner);create(B)", init: []int{0, -1}, tasks: [][]Op{{lk(0), del("found", 2)}, {del("init0", 0), cr(0, 2)}}, thorough: true},
+	{name: "lookup;delete(found,as B)||delete(owner);create(B)", init: []int{0, -1}, tasks: [][]Op{{lk(0), del("found", 2)}, {del("init0", 0), cr(0, 2)}}},
+	{name: "lookup;delete(found,non-owner)||delete(owner);create(B)", init: []int{0, -1}, tasks: [][]Op{{lk(0), del("found", 1)}, {del("init0", 0), cr(0, 2)}}},
 	{name: "delete(owner)||delete(owner)||create(B)", init: []int{0, -1}, tasks: [][]Op{{del("init0", 0)}, {del("init0", 0)}, {cr(0, 1)}}, thorough: true},
 }
 
@@ -861,6 +897,9 @@ func TestExhaustive(t *testing.T) {
 				}
 				if (prog.thorough || !fastLists) && !vkit.Thorough() {
 					continue
+				}
+				if prog.thorough && !fastLists {
+					continue // tree too large with list operations scheduled
 				}
 				c := Case{Shared: shared, FastLists: fastLists, AtomicIDs: !prog.gatedIDs, Init: prog.init, FailAt: -1}
 				for i, ops := range prog.tasks {
